@@ -13,12 +13,26 @@ import sys
 import time
 
 
-class RunTimeout(BaseException):
-    pass
-
-
 def _alarm(signum, frame):
-    raise RunTimeout()
+    from ddsim import runner, seams
+    src = os.path.join(os.path.abspath(seams.dd_src()), 'dd') + os.sep
+    f = frame
+    in_dd = False
+    where = ''
+    depth = 0
+    while f is not None and depth < 400:
+        fn = f.f_code.co_filename
+        if fn.startswith(src):
+            in_dd = True
+            where = f'{os.path.basename(fn)}:{f.f_lineno} {f.f_code.co_name}'
+            break
+        if fn.endswith(os.sep + 'ddsim' + os.sep + 'ops.py') and f.f_code.co_name == 'call':
+            break
+        f = f.f_back
+        depth += 1
+    if not where and frame is not None:
+        where = f'{os.path.basename(frame.f_code.co_filename)}:{frame.f_lineno} {frame.f_code.co_name}'
+    raise runner.RunTimeout(in_dd, where)
 
 
 def main(argv):
@@ -43,7 +57,13 @@ def main(argv):
         signal.setitimer(signal.ITIMER_REAL, per_run)
         try:
             res = runner.run(prop, cfg, seed)
-        except RunTimeout:
+        except Exception as e:      # a bug of the harness, not of dd
+            import traceback
+            res = dict(prop=prop, seed=seed, failure=None,
+                       harness_error='harness exception: ' + ''.join(traceback.format_exception(e))[-900:],
+                       steps=0, stats={}, fs={}, digest='', ldigest='', sig='', nontrivial=False, orders=0,
+                       trace=[], cfg=cfg)
+        except runner.RunTimeout:
             res = dict(prop=prop, seed=seed, failure=None, harness_error='run exceeded %.0fs wall limit' % per_run,
                        steps=0, stats={}, fs={}, digest='', ldigest='', sig='', nontrivial=False, orders=0,
                        trace=[], cfg=cfg)
@@ -66,7 +86,7 @@ def main(argv):
                     trace, f2, tries = runner.shrink(prop, cfg, seed, res['trace'], f, budget=budget)
                 else:
                     trace, f2, tries = res['trace'], f, 0
-            except RunTimeout:
+            except runner.RunTimeout:
                 trace, f2, tries = res['trace'], f, -1
             finally:
                 signal.setitimer(signal.ITIMER_REAL, 0)
